@@ -169,6 +169,10 @@ def main():
                 if b"secret-" in body or (b"CONTENT:" in body and status == 200 and not _inside_content(body, rootname)):
                     direct.append({"law": "no content from outside the data directory is disclosed", "root": root,
                                    "request": req_path, "status": status, "body": body[:80].decode("latin-1")})
+                # a refusal says nothing about the server's file system: not even where the data directory is
+                if exc is None and status in (403, 404) and (top.encode() in body or root.encode() in body):
+                    direct.append({"law": "a refusal discloses nothing (the body of a 403 / 404 does not contain the server's file system path)",
+                                   "root": root, "request": req_path, "status": status, "body": body[-200:].decode("latin-1")})
                 # ---- classify the observed outcome for the model comparison
                 resolved = os.path.abspath(os.path.join(root, *pinfo.split("/")))
                 rcomps = [c for c in resolved.split("/") if c]
